@@ -61,10 +61,13 @@ Definition lower_pinned (A : list Z) : list Z := map (fun a => (a + 32) mod 256)
 (* repaired: the lower-case form of every member (non-letters map to themselves) *)
 Definition lower_fixed (A : list Z) : list Z := map lower A.
 
+(* the code that marks "not in the alphabet" in the 256-entry table (np.full(256, 255); `ret.ravel()==255`) *)
+Definition invalid_code : Z := 255.
+
 (* _initialize: lookup = full(256, 255); lookup[alphabet] = arange(n); lookup[lower_alphabet] = arange(n) *)
 Definition build_lookup (L : list Z -> list Z) (A : list Z) : list Z :=
   let n := arange (len A) in
-  scatter (scatter (repeat 255 256) A n) (L A) n.
+  scatter (scatter (repeat invalid_code 256) A n) (L A) n.
 
 Inductive res :=
   | Ok (codes : list Z)
@@ -78,7 +81,7 @@ Definition encode_flat (L : list Z -> list Z) (A : list Z) (s : list Z) : res :=
   let tbl := build_lookup L A in
   let ret := map (nthZ tbl) s in
   if existsb (fun r => len A <=? r) ret then
-    match positions 255 ret with
+    match positions invalid_code ret with
     | o :: _ => EncErr o                  (* np.flatnonzero(ret.ravel()==255)[0] *)
     | [] => Crash                         (* IndexError: nothing equals 255 *)
     end
@@ -118,6 +121,13 @@ Definition encode_rows (L : list Z -> list Z) (route : Z) (A : list Z) (rows : l
 (* ---------- re-targeting already encoded data: as_encoded_array(s, target) ---------- *)
 Inductive rule := RPinned | RFixed.
 Fixpoint maxl (d : Z) (l : list Z) : Z := match l with [] => d | x :: r => maxl (Z.max d x) r end.
+(* named pieces of the repaired rule (bridged to the source by Bridge/C06.v):
+   m = int(s.raw().max()) if s.size > 0 else -1 ;  prefixes [:m + 1] ;  m < len(target alphabet) *)
+Definition m_retarget_m (size mx : Z) : Z := if size >? 0 then mx else -1.
+Definition retarget_m (codes : list Z) : Z :=
+  m_retarget_m (len codes) (match codes with [] => 0 | x :: r => maxl x r end).
+Definition m_prefix_len (m : Z) : Z := m + 1.
+Definition m_fits (m len_target : Z) : bool := m <? len_target.
 Definition retarget (ru : rule) (src dst : enc) (codes : list Z) : res :=
   match src, dst with
   | Base, Base => Ok codes
@@ -134,9 +144,9 @@ Definition retarget (ru : rule) (src dst : enc) (codes : list Z) : res :=
                then (if m <? len B then Ok codes else EncExc)
                else EncExc
            | RFixed, _ =>
-               let m := maxl (-1) codes in           (* -1 for empty data *)
-               if zlist_eqb (firstn (Z.to_nat (m + 1)) A) (firstn (Z.to_nat (m + 1)) B)
-               then (if m <? len B then Ok codes else EncExc)
+               let m := retarget_m codes in          (* -1 for empty data *)
+               if zlist_eqb (firstn (Z.to_nat (m_prefix_len m)) A) (firstn (Z.to_nat (m_prefix_len m)) B)
+               then (if m_fits m (len B) then Ok codes else EncExc)
                else EncExc
            end
   end.
@@ -154,6 +164,13 @@ Definition change (L : list Z -> list Z) (src dst : enc) (codes : list Z) : res 
                     end
       end
   end.
+
+(* ---------- numeric offset encodings (encodings/__init__.py: DigitEncodingFactory) ---------- *)
+Definition num_encode (b min_code : Z) : Z := b - min_code.     (* bytes_array - self._min_code *)
+Definition num_decode (d min_code : Z) : Z := d + min_code.     (* digits + self._min_code *)
+Definition digit_min_code : Z := 48.      (* DigitEncodingFactory("0") *)
+Definition quality_min_code : Z := 33.    (* DigitEncodingFactory("!") *)
+Definition cigar_min_code : Z := 0.       (* DigitEncodingFactory(chr(0)) *)
 
 (* ---------- what the library reports as decoded text for codes in an encoding ---------- *)
 Definition decode_enc (e : enc) (codes : list Z) : option (list Z) :=
